@@ -4,7 +4,9 @@ namespace UrcuVerif.Lfq
 
 /-- destructure the hypothesis, unfold the definitions -/
 macro "inv_open" h:ident : tactic => `(tactic|
-  (obtain ⟨seg, nodup, inq_iff, rem_next, tail_in, tail_ok, clk_cs, clk_rm, op_cs, cs_n, tl_held, hd_held, e_node, node_inj,
+  (have tlL := Inv.tl_live $h; have hdL := Inv.hd_live $h; have headIn := Inv.head_in $h
+   have nextMem := Inv.next_mem $h; have lastU := Inv.last_unique $h
+   obtain ⟨seg, nodup, inq_iff, rem_next, tail_in, tail_ok, clk_cs, clk_rm, op_cs, cs_n, tl_held, hd_held, e_node, node_inj,
            e_cas, e_adv, e_help, d_hd, d_nx, d_ldn2, d_tail, fifo, gens_tl, gens_hd, hi_fresh, pre_ok, no_uaf⟩ := $h
    simp only [HoldsTl, HoldsHd, Owns, Held, abs] at *))
 
@@ -40,7 +42,6 @@ theorem inv_deqCall {c s s' t o} (h : Inv c s) (st : step c s t .deqCall = some 
   inv_open h; inv_auto st
 
 theorem inv_ldHead {c s s' t o} (h : Inv c s) (st : step c s t .ldHead = some (s', o)) : Inv c s' := by
-  have head_in := seg_head_mem h.seg h.tail_in
   inv_open h; inv_auto st
 
 theorem inv_destroy {c s s' t o} (h : Inv c s) (st : step c s t .destroy = some (s', o)) : Inv c s' := by
